@@ -1,9 +1,10 @@
 import XgcmModel.Model.Metrics
 import XgcmModel.Model.InterpLike
+import XgcmModel.Proofs.MetricOps
 /-
   C10 — The metric applied is the one registered for the array's position and axes.
-  (Selection logic; the arithmetic of integrate / average / derivative / metric_weighted is
-  tied by the correspondence run.)
+  Selection logic, and (second half of the file) the arithmetic of integrate / average /
+  derivative / metric_weighted over every ordered field, for every number of cells.
 -/
 namespace Xgcm.C10
 open Xgcm
@@ -155,5 +156,140 @@ theorem via_center_iff (moves : List (String × Pos × Pos)) (name : String) :
     exact ⟨pa, pl, hmem, h1, h2⟩
   · rintro ⟨pa, pl, hmem, h1, h2⟩
     exact ⟨(name, pa, pl), ⟨hmem, h1, h2⟩, rfl⟩
+
+/-! ### arithmetic of the metric-aware operations -/
+
+section Arithmetic
+variable {K : Type} [Field K]
+
+/-- **integrate does not depend on the order of the axes**: reducing the second axis first or the
+    first axis first gives the same sum of data × metric, for every pair of sizes, every field of
+    values `f` and every (2-D or product) metric `w`. -/
+theorem integrate_axis_order (n m : Nat) (f w : Nat → Nat → K) :
+    integrate2 n m f w = integrate2' n m f w :=
+  sum_range_comm n m (fun i j => f i j * w i j)
+
+/-- **A constant field averages to the constant**, whatever the (non-uniform) weights, wherever data
+    are missing, as long as the weights of the cells that have data do not sum to zero. -/
+theorem average_const (c : K) (cells : List (Option K × K))
+    (hconst : ∀ p ∈ cells, p.1 = none ∨ p.1 = some c)
+    (hw : ((validCells cells).map (·.2)).sum ≠ 0) : averageCells cells = c := by
+  have h : ∀ p ∈ validCells cells, p.1 = c := by
+    intro p hp
+    rcases hconst _ ((mem_validCells cells p).1 hp) with h | h <;> simp at h
+    exact h
+  unfold averageCells
+  rw [integrate_const c _ h]
+  field_simp
+
+/-- without missing data, average is integrate divided by the summed metric -/
+theorem average_is_integrate_over_weights (cells : List (K × K)) :
+    averageCells (cells.map (fun p => (some p.1, p.2))) = integrateCells cells / (cells.map (·.2)).sum := by
+  have : validCells (cells.map (fun p => (some p.1, p.2))) = cells := by
+    simp [validCells, List.filterMap_map, Function.comp_def]
+  simp [averageCells, this]
+
+variable [LinearOrder K] [IsStrictOrderedRing K]
+
+/-- **The average lies between the smallest and the largest value averaged**, for every registry of
+    positive metrics (a product of positive metrics is positive). -/
+theorem average_between (lo hi : K) (cells : List (Option K × K))
+    (hpos : ∀ p ∈ cells, 0 < p.2) (hne : ∃ x w, (some x, w) ∈ cells)
+    (hb : ∀ x w, (some x, w) ∈ cells → lo ≤ x ∧ x ≤ hi) :
+    lo ≤ averageCells cells ∧ averageCells cells ≤ hi := by
+  have hv0 : ∀ p ∈ validCells cells, 0 ≤ p.2 := fun p hp =>
+    le_of_lt (hpos _ ((mem_validCells cells p).1 hp))
+  have hvpos : ∀ p ∈ validCells cells, 0 < p.2 := fun p hp => hpos _ ((mem_validCells cells p).1 hp)
+  have hsum : 0 < ((validCells cells).map (·.2)).sum := by
+    obtain ⟨x, w, hm⟩ := hne
+    have hmem : (x, w) ∈ validCells cells := (mem_validCells cells (x, w)).2 hm
+    have hge : ∀ l : List (K × K), (∀ p ∈ l, 0 < p.2) → ∀ q ∈ l, q.2 ≤ (l.map (·.2)).sum := by
+      intro l hl
+      induction l with
+      | nil => intro q hq; simp at hq
+      | cons a r ih =>
+        intro q hq
+        have hr : 0 ≤ (r.map (·.2)).sum := by
+          have : ∀ l : List (K × K), (∀ p ∈ l, 0 < p.2) → 0 ≤ (l.map (·.2)).sum := by
+            intro l hl'
+            induction l with
+            | nil => simp
+            | cons b t iht =>
+              simp only [List.map_cons, List.sum_cons]
+              have h1 := hl' b (by simp)
+              have h2 := iht (fun p hp => hl' p (by simp [hp]))
+              linarith
+          exact this r (fun p hp => hl p (by simp [hp]))
+        simp only [List.map_cons, List.sum_cons]
+        rcases List.mem_cons.1 hq with h | h
+        · subst h; linarith
+        · have := ih (fun p hp => hl p (by simp [hp])) q h
+          have ha := hl a (by simp)
+          linarith
+    exact lt_of_lt_of_le (hvpos _ hmem) (hge _ hvpos _ hmem)
+  have hlo := integrate_ge lo (validCells cells) hv0
+    (fun p hp => (hb p.1 p.2 ((mem_validCells cells p).1 hp)).1)
+  have hhi := integrate_le hi (validCells cells) hv0
+    (fun p hp => (hb p.1 p.2 ((mem_validCells cells p).1 hp)).2)
+  unfold averageCells
+  constructor
+  · rw [le_div_iff₀ hsum]; exact hlo
+  · rw [div_le_iff₀ hsum]; exact hhi
+
+omit [LinearOrder K] [IsStrictOrderedRing K] in
+/-- **derivative is diff divided by the metric at the result's position**: where the differences
+    are `a` times the (non-zero) cell distances, the derivative is `a` - in particular the
+    derivative of an affine field sampled on ANY non-uniform grid is its slope. -/
+theorem derivative_of_affine (a : K) (diffs metric : List K) (hlen : diffs.length = metric.length)
+    (hm : ∀ d ∈ metric, d ≠ 0) (hd : diffs = metric.map (a * ·)) :
+    derivativeLine diffs metric = List.replicate metric.length a := by
+  subst hd
+  clear hlen
+  induction metric with
+  | nil => simp [derivativeLine]
+  | cons d r ih =>
+    have hd0 : d ≠ 0 := hm d (by simp)
+    have := ih (fun x hx => hm x (by simp [hx]))
+    simp only [derivativeLine, List.map_cons, List.zipWith_cons_cons, List.length_cons,
+      List.replicate_succ] at this ⊢
+    rw [this]
+    congr 1
+    field_simp
+
+omit [LinearOrder K] [IsStrictOrderedRing K] in
+/-- **metric_weighted**: the operation on data × metric divided by the metric at the result's
+    position; with an operation that maps constants to constants (interp, min, max of a constant
+    weighted field …) a uniform metric drops out -/
+theorem metric_weighted_uniform (op : List K → List K) (data : List K) (m : K) (hm : m ≠ 0) (n k : Nat)
+    (hdata : data.length = n) (hop : ∀ l : List K, op (l.map (· * m)) = (op l).map (· * m))
+    (hk : (op data).length = k) :
+    weightedOpLine op data (List.replicate n m) (List.replicate k m) = op data := by
+  have h1 : List.zipWith (· * ·) data (List.replicate n m) = data.map (· * m) := by
+    subst hdata
+    clear hk
+    induction data with
+    | nil => simp
+    | cons x r ih => simp [List.replicate_succ, ih]
+  unfold weightedOpLine
+  rw [h1, hop]
+  subst hk
+  generalize op data = l
+  induction l with
+  | nil => simp
+  | cons x r ih =>
+    simp only [List.map_cons, List.length_cons, List.replicate_succ, List.zipWith_cons_cons, ih]
+    congr 1
+    field_simp
+
+end Arithmetic
+
+/-- non-vacuity: three cells, one without data; weights 1, 2, 4 -/
+example : averageCells [(some (3 : Rat), 1), (none, 2), (some 6, 4)] = 27 / 5 ∧
+    integrate2 2 2 (fun i j => (i + 2 * j : Rat)) (fun _ _ => 2) =
+      integrate2' 2 2 (fun i j => (i + 2 * j : Rat)) (fun _ _ => 2) := by
+  constructor
+  · simp only [averageCells, validCells, integrateCells, List.filterMap_cons, Option.map_some, Option.map_none, List.filterMap_nil, List.map_cons, List.map_nil, List.sum_cons, List.sum_nil]
+    norm_num
+  · exact integrate_axis_order _ _ _ _
 
 end Xgcm.C10
